@@ -20,6 +20,7 @@ def lemmas(tier):
     add("load_struct_base", [b, ("popt", "int")], "V.load_equals(V.doc_structure(0, b, popt, False, False, False, False, False, False, False, False))", ["0 <= b < 9", "0 <= popt < 3"], "load + read back: property of every base type name")
     add("load_struct_annot", F5 + [("ext", "bool"), ("mix", "bool"), ("popt", "int")], "V.load_equals(V.doc_structure(0, 6, popt, f1, f2, f3, f4, f5, ext, mix, False))", ["0 <= popt < 3"], "load + read back: structure/property annotations, extends, mixins (all subsets)")
     add("load_enum", [("base", "int"), ("custom", "int"), ("n", "int")] + F5, "V.load_equals(V.doc_enum(base, f1, f2, f3, f4, f5, custom, n))", ["0 <= base < 3", "0 <= custom < 3", "1 <= n <= 2"], "load + read back: enumeration (base type, values, supportsCustomValues, annotations)")
+    add("load_enum_big", [("i", "int"), ("base", "int")], "V.load_enum_big(i, base)", ["0 <= i < len(V.BIG)", "0 <= base < 2"], "load + read back + inequality: integer enumeration values beyond 2^53 (by symbolic index into 7 values)")
     add("load_alias_shape", [sel, ("bi", "int")], "V.load_equals(V.doc_alias(sel, (5, 6, 8)[bi], False, False, False, False, False))", ["0 <= sel < %d" % NS, "0 <= bi < 3"], "load + read back: type alias of every type kind")
     nest = [("inner", "int"), ("where", "int")]
     npre = ["0 <= inner < 11", "0 <= where < 4"]
@@ -64,7 +65,7 @@ def check(tier):
                 chk.note_known(e)
                 if e.get("region"):
                     l.pre.append("not (%s)" % e["region"])
-    results, stats = xh.run(ls, PREAMBLE, timeout=400 if tier == "thorough" else 100, label="c18", extra_env={"PYTHONHASHSEED": "0"})
+    results, stats = xh.run(ls, PREAMBLE, timeout=400 if tier == "thorough" else 100, label="c18", extra_env={"PYTHONHASHSEED": "0"}, unblock=True)
     chk.ev.add_counts(xh.summarize(results))
     chk.ev.coverage["solver_seconds"] += stats["cpu_s"]
     chk.ev.coverage["crosshair"] = {k: stats[k] for k in ("shards", "wall_s", "cpu_s", "timeout_per_condition_s")}
